@@ -5,7 +5,7 @@ import ast
 
 from ..core import Ctx
 from ..match import arg, call_name, calls, facts_at, local_defs, resolve, single_def
-from ..model import AnalysisError, FuncInfo, chain, const_value, enclosing_stmt, norm, strip_cast, walk_no_nested
+from ..model import AnalysisError, FuncInfo, ancestors, chain, const_value, enclosing_stmt, norm, strip_cast, walk_no_nested
 
 LEVEL = "other"
 EXPLANATION = (
@@ -178,9 +178,17 @@ def rule_duality(ctx: Ctx) -> None:
         other = "decrypt_str" if prim == "encrypt_str" else "encrypt_str"
         ctx.check(not [c for c in calls(fi) if call_name(c) == other], "direction-duality", fi, fi.node,
                   f"{name} uses only {prim}", f"{name} calls {other}")
-        # ValueError from the AEAD is turned into CryptoException (=> caller drops the cell)
-        for tr in [t for t in walk_no_nested(fi.node) if isinstance(t, ast.Try)]:
-            for h in tr.handlers:
+        # every failure of the foreign AEAD call is turned into CryptoException (=> caller drops the cell).  The binary
+        # extension documents no exception contract (decrypt_str raises RuntimeError on a tag mismatch, ValueError on short
+        # input), so only a catch-all handler contains it.
+        from ..cfg import _catches_all
+        for c in prims:
+            tr = next((a for a in ancestors(c) if isinstance(a, ast.Try) and any(c in list(ast.walk(b)) for b in a.body)), None)
+            ok = tr is not None and any(_catches_all(h) for h in tr.handlers)
+            ctx.check(ok, "drop-on-failure", fi, c, f"{name}: {prim} is wrapped in try/except Exception",
+                      f"{name}: the AEAD call {prim} is not contained by a catch-all handler: a tag mismatch raises RuntimeError (not ValueError) "
+                      "out of process_cell into the transport instead of dropping the cell")
+            for h in (tr.handlers if tr is not None else []):
                 raises = [s for s in ast.walk(h) if isinstance(s, ast.Raise)]
                 ok = bool(raises) and all(s.exc is not None and (chain(s.exc) == "CryptoException" or
                                                                 (isinstance(s.exc, ast.Call) and chain(s.exc.func) == "CryptoException"))
@@ -295,6 +303,13 @@ def rule_crypto_before_send(ctx: Ctx) -> None:
     # outgoing_crypto returns None in the CryptoException handler and cell otherwise
     oc = repo.method("PythonCryptoEndpoint", "outgoing_crypto", CR)
     _returns_none_on_crypto_exception(ctx, oc, "crypto-before-send")
+    # a cell for which no routing entry (hence no keys) exists must not be returned untouched unless it is a plaintext cell
+    cfgo = ctx.cfg(oc)
+    for r in [r for r in walk_no_nested(oc.node) if isinstance(r, ast.Return) and r.value is not None and chain(r.value) == "cell"]:
+        bad = _path_with(cfgo, r, [("circuit", False), ("exit_socket", False), ("relay", False), ("cell.plaintext", False)]) or \
+            (not _has_cond(cfgo, "cell.plaintext") and _path_with(cfgo, r, [("circuit", False), ("exit_socket", False), ("relay", False)]))
+        ctx.check(not bad, "crypto-before-send", oc, r, "outgoing_crypto never returns an unencrypted non-plaintext cell for an unknown circuit",
+                  "outgoing_crypto returns the cell untouched when no circuit/exit/relay entry exists: send_cell then puts the payload on the wire in clear")
     rc = repo.method("PythonCryptoEndpoint", "relay_cell", CR)
     cfg = ctx.cfg(rc)
     crypto_nodes = [n for c in calls(rc, ["self.encrypt_cell", "self.decrypt_cell"]) for n in cfg.nodes_for(c)]
@@ -404,6 +419,12 @@ def run(ctx: Ctx) -> None:
 
 
 WITNESSES = [
+    {"name": "pre-fix: only ValueError from the AEAD converted", "file": CR, "rule": "drop-on-failure",
+     "old": "                cell.message = hop.keys.decrypt_str(cell.message, direction)\n            except Exception as e:",
+     "new": "                cell.message = hop.keys.decrypt_str(cell.message, direction)\n            except ValueError as e:"},
+    {"name": "pre-fix: unknown circuit sent in clear", "file": CR, "rule": "crypto-before-send",
+     "old": "            elif not cell.plaintext:\n                # Without a routing entry there are no keys: never send such a cell unencrypted.\n                self.logger.warning(\"Dropping outgoing cell for unknown circuit %d\", circuit_id)\n                return None\n",
+     "new": ""},
     {"name": "originator encrypts hops in path order", "file": CR, "rule": "direction-duality",
      "old": "        for layer, hop in enumerate(reversed(hops)):\n            if not hop.keys:", "new": "        for layer, hop in enumerate(hops):\n            if not hop.keys:"},
     {"name": "exit encrypts FORWARD", "file": CR, "rule": "direction-duality",
@@ -445,8 +466,8 @@ WITNESSES = [
     {"name": "send_cell ignores crypto failure", "file": CR, "rule": "crypto-before-send",
      "old": "        if not self.outgoing_crypto(cell):\n            return\n", "new": "        self.outgoing_crypto(cell)\n"},
     {"name": "outgoing_crypto returns cell on failure", "file": CR, "rule": "crypto-before-send",
-     "old": "                    self.encrypt_cell(cell, other.direction, other.hop)\n        except CryptoException as e:\n            self.logger.warning(str(e))\n            return None",
-     "new": "                    self.encrypt_cell(cell, other.direction, other.hop)\n        except CryptoException as e:\n            self.logger.warning(str(e))"},
+     "old": "                return None\n        except CryptoException as e:\n            self.logger.warning(str(e))\n            return None",
+     "new": "                return None\n        except CryptoException as e:\n            self.logger.warning(str(e))"},
     {"name": "relay forwards after crypto failure", "file": CR, "rule": "drop-on-failure",
      "old": "        except CryptoException as e:\n            self.logger.warning(str(e))\n            return\n\n        cell.circuit_id = next_relay.circuit_id",
      "new": "        except CryptoException as e:\n            self.logger.warning(str(e))\n\n        cell.circuit_id = next_relay.circuit_id"},
